@@ -387,6 +387,17 @@ def _install() -> None:
 
     _reg("choose", g_choose, lambda a, k: n.choose(a[0], a[1]), "select", weight=1)
 
+    def g_choose_mode(ch: core.Chooser) -> dict:
+        d = g_choose(ch)
+        m = len(d["args"][1]["seq"])
+        lit = d["args"][0]["array"]
+        lit["flat"] = [ch.choice([-1, 0, 1, m, m + 1, m - 1]) for _ in lit["flat"]]  # out-of-range entries for wrap/clip
+        d["kwargs"] = {"mode": ch.choice(["wrap", "clip", "raise"])}
+        return d
+
+    _reg("choose.mode", g_choose_mode, lambda a, k: n.choose(a[0], a[1], **k), "select", weight=1)
+    _reg("numpy.choose.mode", g_choose_mode, lambda a, k: numpy.choose(a[0], a[1], **k), "select", weight=1)
+
     # --- creation
     _reg("zeros_like", g_unary, lambda a, k: n.zeros_like(a[0]), "create", weight=1)
     _reg("ones_like", g_unary, lambda a, k: n.ones_like(a[0]), "create", weight=1)
